@@ -24,6 +24,7 @@ func checkC09(w *World, r *Report) {
 	checkC09Strip(w, r)
 	checkC09Fallback(w, r)
 	checkNoEmptyCapture(w, r, "C09.4")
+	checkCursorReset(w, r, "C09.5")
 }
 
 // findCalls returns the call expressions to fn name inside the function body.
@@ -77,6 +78,13 @@ func checkC09PathPhase(w *World, r *Report, id string) {
 		be, ok := n.(*ast.BinaryExpr)
 		if ok && be.Op == token.EQL && strings.HasSuffix(exprStr(be.X), ".childKeys[i]") && (exprStr(be.Y) == "slashDelim" || exprStr(be.Y) == "'/'") {
 			idxFromSlash = true
+		}
+		// or through a search helper: idx = linearSearch(current.childKeys, slashDelim) / bytes.IndexByte(...)
+		if as, isAs := n.(*ast.AssignStmt); isAs && len(as.Lhs) == 1 && len(as.Rhs) == 1 && exprStr(as.Lhs[0]) == "idx" {
+			if call, isCall := as.Rhs[0].(*ast.CallExpr); isCall && len(call.Args) == 2 && strings.HasSuffix(exprStr(call.Args[0]), ".childKeys") &&
+				(exprStr(call.Args[1]) == "slashDelim" || exprStr(call.Args[1]) == "'/'") {
+				idxFromSlash = true
+			}
 		}
 		return true
 	})
